@@ -2,6 +2,7 @@
 import os
 import shutil
 import subprocess
+import time
 import threading
 
 import vunit
@@ -32,5 +33,12 @@ def replay_known(kf, workdir):
     exe = replay_bin()
     if not exe:
         raise RuntimeError('replay binary does not build: ' + _bin.get('err', ''))
-    pr = subprocess.run([exe] + kf['witness']['args'], capture_output=True, text=True, timeout=120, cwd=vunit.VERIF)
+    for attempt in range(8):
+        try:
+            pr = subprocess.run([exe] + kf['witness']['args'], capture_output=True, text=True, timeout=120, cwd=vunit.VERIF)
+            break
+        except OSError as ex:   # ETXTBSY right after the build: retry
+            if ex.errno != 26 or attempt == 7:
+                raise
+            time.sleep(0.05 * (attempt + 1))
     return pr.returncode == 1
